@@ -164,6 +164,7 @@ type CqlClientConnection struct {
 	inFlightHandler    *inFlightRequestsHandler
 	outgoing           chan *frame.Frame
 	events             chan *frame.Frame
+	channelsLock       *sync.RWMutex // guards outgoing and events: they are closed and set to nil by Close
 	waitGroup          *sync.WaitGroup
 	closed             int32
 	ctx                context.Context
@@ -210,6 +211,7 @@ func newCqlClientConnection(
 		handlers:     handlers,
 		outgoing:     make(chan *frame.Frame, maxInFlight),
 		events:       make(chan *frame.Frame, maxInFlight),
+		channelsLock: &sync.RWMutex{},
 		waitGroup:    &sync.WaitGroup{},
 		payloadAccumulator: &payloadAccumulator{
 			frameCodec: frame.NewRawCodec(), // without compression
@@ -280,10 +282,11 @@ func (c *CqlClientConnection) incomingLoop() {
 func (c *CqlClientConnection) outgoingLoop() {
 	log.Debug().Msgf("%v: listening for outgoing frames...", c)
 	c.waitGroup.Add(1)
+	frames := c.outgoing // Close sets the field to nil
 	go func() {
 		abort := false
 		for !abort && !c.IsClosed() {
-			if outgoing, ok := <-c.outgoing; !ok {
+			if outgoing, ok := <-frames; !ok {
 				if !c.IsClosed() {
 					log.Error().Msgf("%v: outgoing frame channel was closed unexpectedly, closing connection", c)
 					abort = true
@@ -435,12 +438,14 @@ func (c *CqlClientConnection) processIncomingFrame(incoming *frame.Frame) (abort
 		for _, handler := range c.handlers {
 			handler(incoming, c)
 		}
+		c.channelsLock.RLock()
 		select {
 		case c.events <- incoming:
 			log.Debug().Msgf("%v: incoming event frame successfully delivered: %v", c, incoming)
 		default:
 			log.Error().Msgf("%v: events queue is full, discarding event frame: %v", c, incoming)
 		}
+		c.channelsLock.RUnlock()
 	} else {
 		if err := c.inFlightHandler.onIncomingFrameReceived(incoming); err != nil {
 			log.Error().Err(err).Msgf("%v: incoming frame delivery failed: %v", c, incoming)
@@ -527,6 +532,8 @@ func (c *CqlClientConnection) Send(f *frame.Frame) (InFlightRequest, error) {
 		return nil, fmt.Errorf("%v: failed to register in-flight handler for frame: %v: %w", c, f, err)
 	} else {
 		verifGate("send.registered", int64(f.Header.StreamId))
+		c.channelsLock.RLock()
+		defer c.channelsLock.RUnlock()
 		select {
 		case c.outgoing <- f:
 			log.Debug().Msgf("%v: outgoing frame successfully enqueued: %v", c, f)
@@ -575,6 +582,8 @@ type EventChannel <-chan *frame.Frame
 // EventChannel returns a channel for listening to incoming events received on this connection. This channel will be
 // closed when the connection is closed. If this connection has already been closed, this method returns nil.
 func (c *CqlClientConnection) EventChannel() EventChannel {
+	c.channelsLock.RLock()
+	defer c.channelsLock.RUnlock()
 	return c.events
 }
 
@@ -585,7 +594,7 @@ func (c *CqlClientConnection) ReceiveEvent() (*frame.Frame, error) {
 		return nil, fmt.Errorf("%v: connection closed", c)
 	}
 	select {
-	case incoming, ok := <-c.events:
+	case incoming, ok := <-c.EventChannel():
 		if !ok {
 			return nil, fmt.Errorf("%v: incoming events channel closed", c)
 		}
@@ -609,13 +618,15 @@ func (c *CqlClientConnection) Close() (err error) {
 		log.Debug().Msgf("%v: closing", c)
 		c.cancel()
 		err = c.conn.Close()
+		c.channelsLock.Lock()
 		outgoing := c.outgoing
 		events := c.events
 		c.outgoing = nil
 		c.events = nil
-		verifGate("conn.close.chans", 0)
 		close(outgoing)
 		close(events)
+		c.channelsLock.Unlock()
+		verifGate("conn.close.chans", 0)
 		c.inFlightHandler.close()
 		c.waitGroup.Wait()
 		if err != nil {
